@@ -89,55 +89,69 @@ def known_keys():
     return {f["key"] for f in json.load(open(os.path.join(VERIF, "known_findings.json"))).get("findings", [])}
 
 
-def run(pids, only=None, verbose=False):
+def run_one(job):
+    """one patch: returns (ok, text)"""
     import rulelib
-    mods = {p: importlib.import_module(p.lower()) for p in pids}
+    (name, kind, want), pids, verbose = job
     known = known_keys()
-    bad = 0
+    d = os.path.join(ROOT, "facts", name.replace("/", "__"))
+    if not os.path.isdir(d):
+        return True, "no facts for %s" % name
+    mods = {p: importlib.import_module(p.lower()) for p in pids}
+    F = Facts(d)
+    fired = {}
+    for p in pids:
+        if kind in ("seed", "mutant") and want and p not in want and not verbose:
+            continue
+        rulelib._SUB.clear()
+        R = Reporter(p, "quick")
+        try:
+            mods[p].run(F, R, "quick")
+            keys = [k for r in R.rules for k, _, _ in r.fails if k not in known]
+        except Exception as e:
+            import traceback
+            keys = ["CRASH|%s|%s" % (type(e).__name__, str(e)[:160])]
+            if verbose:
+                traceback.print_exc()
+        if keys:
+            fired[p] = keys
+    if kind in ("benign", "base"):
+        ok = not fired
+        status = "silent" if ok else "FALSE-ALARM"
+    else:
+        hit = [p for p in want if p in fired and p in pids]
+        relevant = [p for p in want if p in pids]
+        if not relevant:
+            return True, None
+        ok = bool(hit)
+        status = "detected" if ok else "MISSED"
+    out = ["%-12s %s" % (status, name)]
+    if not ok or verbose:
+        for p, ks in fired.items():
+            for k in ks[:6]:
+                out.append("      %s" % k[:230])
+    return ok, "\n".join(out)
+
+
+def run(pids, only=None, verbose=False, jobs=1):
     t00 = time.time()
-    for name, patch, kind, want in [("_base", None, "base", [])] + patches():
-        if only and not any(o in name for o in only) and name != "_base":
-            continue
-        d = os.path.join(ROOT, "facts", name.replace("/", "__"))
-        if not os.path.isdir(d):
-            print("no facts for", name)
-            continue
-        F = Facts(d)
-        fired = {}
-        for p in pids:
-            if kind in ("seed", "mutant") and want and p not in want and not verbose:
-                continue
-            rulelib._SUB.clear()
-            R = Reporter(p, "quick")
-            try:
-                mods[p].run(F, R, "quick")
-                keys = [k for r in R.rules for k, _, _ in r.fails if k not in known]
-            except Exception as e:
-                import traceback
-                keys = ["CRASH|%s|%s" % (type(e).__name__, str(e)[:160])]
-                if verbose:
-                    traceback.print_exc()
-            if keys:
-                fired[p] = keys
-        if kind in ("benign", "base"):
-            ok = not fired
-            status = "silent" if ok else "FALSE-ALARM"
-        else:
-            hit = [p for p in want if p in fired and p in pids]
-            relevant = [p for p in want if p in pids]
-            if not relevant:
-                continue
-            ok = bool(hit)
-            status = "detected" if ok else "MISSED"
-        if not ok:
-            bad += 1
-        if not ok or verbose:
-            print("%-12s %-44s %s" % (status, name, "" if ok and not verbose else ""))
-            for p, ks in fired.items():
-                for k in ks[:6]:
-                    print("      %s" % k[:230])
-        else:
-            print("%-12s %s" % (status, name))
+    todo = [((name, kind, want), pids, verbose) for name, patch, kind, want in [("_base", None, "base", [])] + patches()
+            if not (only and not any(o in name for o in only) and name != "_base")]
+    bad = 0
+    if jobs > 1:
+        import concurrent.futures as cf
+        with cf.ProcessPoolExecutor(jobs) as ex:
+            results = ex.map(run_one, todo, chunksize=1)
+            for ok, text in results:
+                if text:
+                    print(text, flush=True)
+                bad += 0 if ok else 1
+    else:
+        for j in todo:
+            ok, text = run_one(j)
+            if text:
+                print(text, flush=True)
+            bad += 0 if ok else 1
     print("-- %d problem(s), %.0fs" % (bad, time.time() - t00))
     return bad
 
@@ -150,9 +164,14 @@ if __name__ == "__main__":
         i = a.index("--only")
         only = a[i + 1].split(",")
         a = a[:i] + a[i + 2:]
+    jobs = 1
+    if "-j" in a:
+        i = a.index("-j")
+        jobs = int(a[i + 1])
+        a = a[:i] + a[i + 2:]
     verbose = "-v" in a
     a = [x for x in a if x != "-v"]
     if cmd == "build":
         build(only)
     else:
-        sys.exit(1 if run([x.upper() for x in a] or PIDS, only, verbose) else 0)
+        sys.exit(1 if run([x.upper() for x in a] or PIDS, only, verbose, jobs) else 0)
